@@ -67,6 +67,8 @@ def compute_domains_affine_geq(domains: NDArray, parameters: NDArray) -> int:
         else:
             domain_sum_min -= c * domains[i, MIN]
             domain_sum_max -= c * domains[i, MAX]
+    if domain_sum_min > 0:
+        return PROP_INCONSISTENCY
     if domain_sum_max <= 0:
         return PROP_ENTAILMENT
     old_domains = np.copy(domains)
